@@ -305,7 +305,12 @@ def rule_j(ctx):
             for s in falses:
                 cs = [c for c in b.conditions(s) if c.kind == "call" and c.data[0] == "std::vec::Vec::is_empty" and c.data[1] is True]
                 ok = ok and bool(cs) and all(b.dominates(c.data[2], pushes[0]) for c in cs)
-            ctx.ob("injector|push-into-empty-clears-flag", ok, "pushing a bucket into an empty injector (emptiness sampled before the push) clears the flag", falses + pushes)
+                # ... and it is the emptiness of the locked bucket list itself (the vector the bucket is pushed to), not of anything else
+                if pushes:
+                    po = b.origins(pushes[0].args()[0], pushes[0])
+                    ok = ok and all(b.origins(c.data[2].args()[0], c.data[2]) == po for c in cs) and \
+                        any(x[2].endswith("Mutex::lock") for o in po for x in origin_calls(o))
+            ctx.ob("injector|push-into-empty-clears-flag", ok, "pushing a bucket into an empty injector (emptiness of the locked list, sampled before the push) clears the flag", falses + pushes)
     ctx.ob("floor|injector-flag-stores", n >= 3, "expected >= 3 stores of the injector's emptiness flag (found %d)" % n)
     ie = P.body(INJ + "is_empty")
     if ie is not None:
